@@ -123,6 +123,9 @@ func (e *Enc) prelude(key, text string) {
 }
 
 func (e *Enc) decl(name string, s Sort) string {
+	if s == SStr {
+		e.needStr()
+	}
 	e.emitDecl(fmt.Sprintf("(declare-const %s %s)", name, e.M.smtSort(s)))
 	return name
 }
@@ -155,6 +158,9 @@ func (e *Enc) heap(st *State, s Sort) string {
 		return h
 	}
 	// first touch: entry version (pass 1 only; pass 2 has all sorts pre-declared)
+	if s == SStr {
+		e.needStr()
+	}
 	e.knownSorts[s] = true
 	name := "H_" + string(s) + "_0"
 	if !e.preOK["heap0:"+string(s)] {
@@ -459,6 +465,18 @@ func (e *Enc) newObj(st *State, prefix string) string {
 	return obj
 }
 
+// zeroArr is an array whose elements are all the zero value of sort s.
+func (e *Enc) zeroArr(s Sort) string {
+	I := e.M.smtSort(SI)
+	if s != SStr {
+		return fmt.Sprintf("((as const (Array %s %s)) %s)", I, e.M.smtSort(s), e.zero(s))
+	}
+	// cvc5 only accepts values in constant arrays; str_empty is an uninterpreted constant
+	e.needStr()
+	e.prelude("zeroarr_S", fmt.Sprintf("(declare-const zeroarr_S (Array %s Str))\n(assert (forall ((i %s)) (! (= (select zeroarr_S i) str_empty) :pattern ((select zeroarr_S i)))))", I, I))
+	return "zeroarr_S"
+}
+
 func (e *Enc) zeroInit(st *State, t types.Type, obj string) {
 	sorts := map[Sort]bool{}
 	e.allSorts(t, sorts)
@@ -471,8 +489,7 @@ func (e *Enc) zeroInit(st *State, t types.Type, obj string) {
 		s := Sort(s0)
 		h := e.heap(st, s)
 		nh := e.fresh("H_" + s0)
-		e.emitDecl(fmt.Sprintf("(define-fun %s () %s (store %s %s ((as const (Array %s %s)) %s)))", nh, e.heapSort(s), h, obj,
-			e.M.smtSort(SI), e.M.smtSort(s), e.zero(s)))
+		e.emitDecl(fmt.Sprintf("(define-fun %s () %s (store %s %s %s))", nh, e.heapSort(s), h, obj, e.zeroArr(s)))
 		st.H[s] = nh
 	}
 }
